@@ -86,6 +86,18 @@ func (c04) RunBatch(ctx *core.Ctx, batch int) {
 		for _, l := range c04Leaves(true) {
 			c04Tree(ctx, l, 12, true)
 		}
+		// numbers at the edges of float32 / int32 / float64 / int64 precision in every numeric
+		// position: the parameter carries the exact value, so must the inline text
+		big := []qt.Value{qt.Int(16777217), qt.Int(4294967297), qt.Int(9007199254740993), qt.Int(9007199254740995), qt.Int(-9007199254740993), qt.Int(1234567890123456789), qt.Int(9223372036854775807), qt.Int(-9223372036854775808),
+			qt.Float("9.5e18"), qt.Float("9007199254740993.0"), qt.Float("16777217.5"), qt.Float("1234.56789"), qt.Float("100000.00001"), qt.Float("9223372036854775808")}
+		for i, v := range big {
+			w := big[(i+1)%len(big)]
+			for _, t := range []*qt.Node{qt.F("n", v), qt.T(v), qt.Cmp("n", ">", v), qt.Cmp("n", "<=", v), qt.Range("n", v, qt.Open(), true), qt.Range("n", qt.Open(), v, false),
+				qt.Range("n", qt.Int(1), v, true), qt.Range("n", v, w, false), qt.Range("n", qt.Float("0.5"), v, true), qt.List("n", v, qt.Int(1), w), qt.And(qt.F("x", qt.Word("y")), qt.Not(qt.Range("n", v, qt.Int(5), false)))} {
+				c04Tree(ctx, t, 0, true)
+				ctx.Count("edge_number_trees", 1)
+			}
+		}
 		// the quoted star as a range bound (a class of its own, see KNOWN_FINDINGS)
 		for _, t := range []*qt.Node{qt.Range("s", qt.Phrase("*"), qt.Word("zz"), true), qt.Range("s", qt.Word("aa"), qt.Phrase("*"), false), qt.Range("n", qt.Phrase("*"), qt.Int(5), true)} {
 			c04Tree(ctx, t, 0, true)
